@@ -234,6 +234,7 @@ def machine_check(cons, depth, npts, all_targets, workers=2):
             if dead:
                 obs[hist] = {"skip": True, "objs": []}
                 continue
+            flags = _flags(pool, name, args)
             try:
                 _execute(T, pool, cons, name, args, hist)
             except H.Skip:
@@ -244,16 +245,16 @@ def machine_check(cons, depth, npts, all_targets, workers=2):
             except Exception as ex:
                 out["cases"].append(((cls, fam, hist), True))
                 out["violations"].append((
-                    "raised|%s|%s|%s|%s" % (cls, fam, name, type(ex).__name__),
-                    "%s (%s coefficients): history %s: the call %s raised %s: %s"
-                    % (cls, fam, hist, canon, type(ex).__name__, ex),
+                    "raised|%s|%s|%s|%s|%s" % (flags, type(ex).__name__, name, cls, fam),
+                    "%s (%s coefficients; operands: %s): history %s: the call %s raised %s: %s"
+                    % (cls, fam, flags, hist, canon, type(ex).__name__, ex),
                     {"class": cls, "family": fam, "history": hist, "constants": _plain(cons),
                      "run": [depth, npts, all_targets]}))
                 dead = True
                 obs[hist] = {"skip": True, "objs": []}
                 continue
             nsteps += 1
-            last[hist] = (name, args)
+            last[hist] = (name, args, flags)
             obs[hist] = {"skip": False, "objs": [H.observe(x, pts, use_fnu=(nsteps % 5 == 0)) for x in pool]}
     # ---- run 2: TLC re-explores the histories with the observations loaded and decides conformance
     of = os.path.join(wd, "obs.json")
@@ -276,19 +277,19 @@ def machine_check(cons, depth, npts, all_targets, workers=2):
             raise tlc.TLCError("history %s of the model was not replayed" % hist)
         if any(hist[:i] in bad for i, ch in enumerate(hist) if ch == "/"):
             continue        # an earlier step of this history already failed: report the first divergence only
-        name, args = last.get(hist, ("Init", []))
+        name, args, flags = last.get(hist, ("Init", [], "plain"))
         role = role_of(name, args, slot) if name != "Init" else "initial"
         out["violations"].append((
-            "denotes|%s|%s|%s|%s|%s" % (clause, cls, fam, name, role),
-            "%s (%s coefficients): after the history %s the %s object in slot %d does not evaluate to the exact "
-            "value of the expansion it must denote (clause %s; %s)"
-            % (cls, fam, hist, role, slot, clause,
+            "denotes|%s|%s|%s|%s|%s|%s" % (flags, clause, name, role, cls, fam),
+            "%s (%s coefficients; operands: %s): after the history %s the %s object in slot %d does not evaluate to "
+            "the exact value of the expansion it must denote (clause %s; %s)"
+            % (cls, fam, flags, hist, role, slot, clause,
                "the result of the call is wrong" if role == "result"
                else "an object the call must not touch changed: side effect / shared storage"),
             {"class": cls, "family": fam, "history": hist, "slot": slot, "clause": clause,
              "constants": _plain(cons), "run": [depth, npts, all_targets], "observed": obs[hist]["objs"][slot - 1]}))
     calls = {}
-    for name, args in last.values():
+    for name, args, flags in last.values():
         calls[name] = calls.get(name, 0) + 1
     out.update(graph_states=res.distinct, histories=len(obs), steps=nsteps, skipped=skipped, calls=calls)
     return out
@@ -302,6 +303,26 @@ def _job(job):
         return {"error": str(ex)}
     finally:
         tlc.cleanup()
+
+
+def _flags(pool, name, args):
+    """What is unusual about the real objects a call is about to read or modify (part of the violation key):
+    'dup-labels' = a term label (n, l) occurs twice in an operand (the package documents such lists as legitimate:
+    they "should still evaluate the same"), 'real-dtype' = a coefficient array that is not complex (a + real array
+    stores the real array as it is)."""
+    ops, w = ROLE_ARGS[name]
+    fl = set()
+    inplace = name in ("IAdd", "ISub", "IScalar", "ILDot", "IRDot", "ITruncate", "Reduce", "Separate", "SetSlice")
+    for s in {args[i] for i in ops} | ({args[w]} if inplace else set()):
+        x = pool[s - 1]
+        if x is None:
+            continue
+        nls = [(n, l) for n, l, c in x.coefflist]
+        if len(set(nls)) != len(nls):
+            fl.add("dup-labels")
+        if any(not np.iscomplexobj(c) for n, l, c in x.coefflist):
+            fl.add("real-dtype")
+    return "+".join(sorted(fl)) or "plain"
 
 
 def _execute(T, pool, cons, name, args, hist):
